@@ -46,7 +46,15 @@ def payload_objects(ctx) -> List[Dict[str, Any]]:
     """JSON objects used as params/result."""
     rng = ctx.sub_rng("c02payload")
     vals = gen.grammar(1 if ctx.tier == "quick" else 2)
-    objs: List[Dict[str, Any]] = [{}, {"a": None}, {"a": {"b": None, "c": [None, 1, {"d": None}]}}]
+    objs: List[Dict[str, Any]] = [{}, {"a": None}, {"a": {"b": None, "c": [None, 1, {"d": None}]}},
+                                  # wide, shallow payloads: hundreds of (empty) containers next to each other - a tool list
+                                  # of parameter-less tools, records with empty tag lists
+                                  {"rows": [{} for _ in range(300)], "tags": [[] for _ in range(300)]},
+                                  {"tools": [{"name": f"t{i}", "inputSchema": {"type": "object", "properties": {}, "required": []}}
+                                             for i in range(260)]},
+                                  {"wide": {f"k{i}": {"v": [i, None]} for i in range(400)}},
+                                  # and a moderately deep one (well inside every backend's limits)
+                                  {"deep": gen.nest({"leaf": None}, 100, rng)}]
     for v in vals:
         objs.append({"v": v})
     for k in gen.KEYS:
